@@ -8,8 +8,8 @@ import (
 
 func init() {
 	register(&propDef{
-		ID:  "C18",
-		Run: ruleC18,
+		ID:          "C18",
+		Run:         ruleC18,
 		Explanation: "Decides the accept/reject function of the redact command's argument validation exhaustively over all 2^13 presence combinations of {file argument, piped stdin, key pair in the environment, --outputFile, --encrypt, --redactFieldsRegexp, --redactFieldNames, --atlasProjectId, --atlasClusterName, --atlasPublicKey, --atlasPrivateKey, --atlasLogStartDate, --atlasLogEndDate}: the closure's SSA is abstractly interpreted over the presence domain (strings empty/non-empty, ints zero/non-zero, unknown for results of effectful calls - both branches explored) up to the first processing call or os.Exit, and the verdict, the accepted mode, the side effects performed before a flags-only rejection and the loudness of each rejection are compared with a rule table written from the property and the README. The space is finite and enumerated completely (exhaustive). NOT decided: cobra's own parsing (unknown flags, MaximumNArgs), detection of a piped stdin by Stat, value-dependent failures (invalid regexp).",
 		RuleText:    "one obligation per presence assignment (8192): abstract run(s) of the closure vs. the specification predicate; accept <=> not(regexp and fieldNames) and (start<=>end) and exactly one source among {file, stdin, atlas} and (atlas => project, cluster, outputFile, public and private key by flag or environment) and (encrypt and not atlas => file, not stdin, outputFile); a state is flag-rejected when every abstract path ends in a non-zero exit, and then no path may carry a side effect and every exit must be preceded by a write to stderr",
 	})
@@ -35,7 +35,7 @@ func ruleC18(c *Ctx, r *Report) {
 	}
 	type issue struct {
 		rule, kind, detail string
-		at               presenceAtoms
+		at                 presenceAtoms
 	}
 	var issues []issue
 	nAcc, nRej, nDC, nPaths := 0, 0, 0, 0
